@@ -14,7 +14,7 @@ ID = "C16"
 LEVEL = "exploration"
 RULE = (
     "case = (generated tree, optional rename file, initial sdkconfig: absent / written by the tool in a generated state / "
-    "hand-edited with unknown, duplicate and deprecated entries; a sequence of <=24 UI-level actions - highlight, enter, "
+    "hand-edited with unknown, duplicate and deprecated entries / written by the tool and then given an entry for an option that no longer exists; a sequence of <=24 UI-level actions - highlight, enter, "
     "toggle, typed values, y / n, choice member selection, reset of a row or of a whole menu, show-all, jump-to, load of "
     "another file, save - executed by the real handlers of esp_menuconfig/app.py on a headless stub application).  Oracle after "
     "EVERY step: needs_save() == False implies that the file on disk is byte-for-byte what saving would write now - or, for a "
@@ -36,7 +36,7 @@ CFG = gen.cfg(max_syms=12, p_menu=22, p_menuconfig=20, p_choice=14, p_warning=10
 def _cases(draw):
     d = gen.D(draw)
     tree = gen._Builder(d, CFG).build()
-    kind = d.weighted([(4, "tool"), (3, "absent"), (3, "hand")])
+    kind = d.weighted([(4, "tool"), (3, "absent"), (3, "hand"), (2, "stale")])  # stale = tool-written + an entry for an option that no longer exists
     initial = gen.gen_assignments(d, tree, CFG, 0, 5, kinds=[(100, "valid")])
     renames = gen.gen_renames(d, tree, 1, 3, undefined_pct=0) if d.chance(25) else None
     hand = ops.gen_hand_file(d, tree, CFG, 1, 6, unknown_pct=20)
@@ -47,6 +47,14 @@ def _cases(draw):
     if kind == "hand" and hand and d.chance(40):
         hand.append(list(d.pick(hand)))  # a duplicate assignment
     files = [ops.gen_hand_file(d, tree, CFG) for _ in range(2)]
+    # a load that changes nothing (an empty fragment, a backup copy of what the main file says): afterwards the session is
+    # exactly as clean or as dirty as it was before
+    if d.chance(20):
+        files[0] = []
+    if kind == "hand" and d.chance(40):
+        files[1] = [list(ln) for ln in hand if not ln[0].startswith(("@old:", "VK_UNKNOWN"))]
+    if kind == "stale" and d.chance(50):
+        files[1] = [list(a) for a in initial]  # a backup of what the user had configured
     actions = mcdriver.gen_actions(d, tree, CFG, 3, 24, n_files=2)
     return {"tree": tree, "initial_kind": kind, "initial": initial, "hand": hand, "renames": renames, "files": files, "actions": actions, "parser": 2 if d.chance(10) else 1}
 
@@ -59,7 +67,7 @@ def sample(case):
     return {
         "kconfig": render(case["tree"], "<dir>"),
         "initial_sdkconfig": case["initial_kind"],
-        "initial": case["initial"] if case["initial_kind"] == "tool" else (case["hand"] if case["initial_kind"] == "hand" else None),
+        "initial": case["initial"] if case["initial_kind"] in ("tool", "stale") else (case["hand"] if case["initial_kind"] == "hand" else None),
         "renames": case["renames"],
         "actions": case["actions"],
     }
@@ -85,7 +93,7 @@ def setup(case, d):
         rpath = os.path.join(d, "sdkconfig.rename")
         with open(rpath, "w") as f:
             f.write(gen.render_renames(case["renames"]))
-    if case["initial_kind"] == "tool":
+    if case["initial_kind"] in ("tool", "stale"):
         sub = os.path.join(d, "pre")
         os.mkdir(sub)
         k0 = kc.build(tree, sub, parser=parser)
@@ -96,6 +104,9 @@ def setup(case, d):
         from esp_menuconfig.idf_headers import idf_sdkconfig_header
 
         k0.write_config(conf, header=idf_sdkconfig_header(), write_deprecated=False)
+        if case["initial_kind"] == "stale":
+            with open(conf, "a") as f:
+                f.write("CONFIG_VK_REMOVED_OPTION=y\n")
     elif case["initial_kind"] == "hand":
         with open(conf, "w") as f:
             f.write(_hand_text(tree, case["hand"]))
@@ -194,8 +205,13 @@ def check(case) -> Result:
                 p2 = os.path.join(sub, "sdkconfig")
                 with open(p2, "w") as f:
                     f.write(text)
-                k2.load_config(p2)
-                return k2._config_contents(idf_sdkconfig_header(), write_deprecated=False)
+                drv2 = mcdriver.Driver(k2, p2, [])  # starts the session the way menuconfig() does, loading p2
+                again = k2._config_contents(idf_sdkconfig_header(), write_deprecated=False)
+                if drv2.state.needs_save():
+                    # the same file, the same configuration: a session started on it afresh says that saving is needed
+                    # (e.g. because of entries for unknown options), so the running session must not claim to be clean
+                    return again + "\n<a fresh session on this file reports unsaved changes>"
+                return again
 
             try:
                 if case["initial_kind"] == "tool" and st.needs_save():
